@@ -108,11 +108,11 @@ def build(rng):
         H[k] += v
     desc.append(["objective", fterms])
     feasible = np.ones(1 << n, dtype=bool)
-    if rng.random() < 0.25:
+    if rng.random() < 0.4:
         # the objective is converted once before any constraint exists (to look at its size, say); nothing of that conversion may
         # survive into the conversions of the constrained model
         try:
-            getattr(H, rng.choice(["to_qubo", "to_quso", "to_pubo", "to_puso"]))()
+            getattr(H, rng.choice(["to_qubo", "to_qubo", "to_quso", "to_quso", "to_pubo", "to_puso"]))()
             desc.append(["(converted once before the constraints)"])
             STEPS["conversion-before-constraints"] = 1
         except Exception:   # noqa
